@@ -2,7 +2,6 @@ package value
 
 import (
 	"context"
-	"encoding/json"
 	"fmt"
 	"math"
 	"strconv"
@@ -118,8 +117,8 @@ func (self ValueString) Fields() (map[string]*Value, *VmInterrupt) {
 			return NewValueString(sub), nil
 		}),
 		"parse_json": NewValueBuiltinFunction(func(executor Executor, cancelCtx *context.Context, span errors.Span, args ...Value) (*Value, *VmInterrupt) {
-			var raw interface{}
-			if err := json.Unmarshal([]byte(self.Inner), &raw); err != nil {
+			raw, err := decodeJson(self.Inner)
+			if err != nil {
 				return nil, NewVMThrowInterrupt(span, fmt.Sprintf("JSON parse error: %s", err.Error()))
 			}
 			value, i := UnmarshalValue(span, raw)
